@@ -371,6 +371,9 @@ def r4_processors(chk, repo):
     ok, path = cfg.every_path([cfg.entry], [cfg.exit_return], saver_check, "n")
     chk.check(ok, "C06.R4", f, None, "normal completion does not inspect the savers for exceptions: a failed save is reported as success",
               site_text="ThreadedMailboxProcessor.iter: every normal exit passes the got_exception inspection")
+    # ... and what it inspects was recorded by the saver thread on every way out of its handler
+    from .c04 import failure_recorded
+    failure_recorded(chk, repo, "C06.R4")
 
     # ---- single thread processor
     s = repo.func("SingleThreadProcessor.iter", SINGLE)
